@@ -16,7 +16,8 @@ SEQ_ITEMS = ("x", "tok", "y")            # variable-length tensor fields (ndim >
 FIXED_TENSOR_ITEMS = ("vec",)            # tensor with ndim > 0 whose length never varies
 # 0-dim tensor, python int, python int, str, ModeWrapper's index, python float (values float32 cannot hold), python bool,
 # numpy float64 scalar, numpy int16 scalar
-OTHER_ITEMS = ("w", "seqlen", "class", "name", "index", "fl", "flag", "npf", "npi")
+# ... and container items: fixed-size python list of floats (a bbox), list of ints, tuple of numbers, nested list, dict
+OTHER_ITEMS = ("w", "seqlen", "class", "name", "index", "fl", "flag", "npf", "npi", "bbox", "ilist", "tup", "nest", "dct")
 PY_FLOATS = (16777217.0, 0.1, 1e-50, 3.5, -2.0 ** 60 - 1.0, 1.0 / 3.0, 123456789.125, 2.0)
 FLOAT_ITEMS = ("x", "y", "vec", "w")     # items a member may edit arithmetically
 
@@ -102,6 +103,31 @@ class SeqDS(KDDataset):
         i = int(idx)
         self._rec(ctx, "npi", i)
         return np.int16(i - 3)
+
+    def getitem_bbox(self, idx, ctx=None):
+        i = int(idx)
+        self._rec(ctx, "bbox", i)
+        return [i + 0.5, 2.0 * i, 16777217.0, 0.1 * (i + 1)]
+
+    def getitem_ilist(self, idx, ctx=None):
+        i = int(idx)
+        self._rec(ctx, "ilist", i)
+        return [i, i + 10, -i]
+
+    def getitem_tup(self, idx, ctx=None):
+        i = int(idx)
+        self._rec(ctx, "tup", i)
+        return (i, i + 0.25)
+
+    def getitem_nest(self, idx, ctx=None):
+        i = int(idx)
+        self._rec(ctx, "nest", i)
+        return [[i, i + 1], [i + 2.5]]
+
+    def getitem_dct(self, idx, ctx=None):
+        i = int(idx)
+        self._rec(ctx, "dct", i)
+        return {"a": i, "b": i / 8, "c": [i, 1.5]}
 
     def getitem_name(self, idx, ctx=None):
         i = int(idx)
